@@ -367,7 +367,8 @@ func runC14(c *Ctx) {
 			if tbl == nil {
 				return true
 			}
-			if inner, ok := ix.Index.(*ast.IndexExpr); !ok {
+			// the index is line[0], written there or through a local (tag := line[0])
+			if inner, ok := identDef(info, fd, ix.Index).(*ast.IndexExpr); !ok {
 				return true
 			} else if k, ok := constIntOf(info, inner.Index); !ok || k != 0 {
 				return true
@@ -665,6 +666,16 @@ func runC14(c *Ctx) {
 					wSep = append(wSep, s)
 				}
 			}
+			// the separator joined to the formatted time in one operand: Fprint(w, "\t"+ts.Format(f))
+			if len(call.Args) == 2 {
+				if be, ok := call.Args[1].(*ast.BinaryExpr); ok && be.Op == token.ADD {
+					if s, ok := strConst(info, be.X); ok {
+						if _, rc := strConst(info, be.Y); !rc {
+							wSep = append(wSep, s)
+						}
+					}
+				}
+			}
 		}
 		for _, call := range callsIn(pfl, "Cut") {
 			if len(call.Args) == 2 {
@@ -689,6 +700,30 @@ func runC14(c *Ctx) {
 							}
 						}
 					}
+				}
+				if _, have := wCmd[op]; !have {
+					// the command line put together by concatenation: <span> + "d" + <span>
+					ast.Inspect(cc, func(n ast.Node) bool {
+						be, ok := n.(*ast.BinaryExpr)
+						if !ok || be.Op != token.ADD {
+							return true
+						}
+						// left-associative: (X + "d") + Y
+						inner, ok := be.X.(*ast.BinaryExpr)
+						if !ok || inner.Op != token.ADD {
+							return true
+						}
+						if s, ok := strConst(info, inner.Y); ok && len(s) == 1 && s[0] >= 'a' && s[0] <= 'z' {
+							if _, lc := strConst(info, inner.X); !lc {
+								if _, rc := strConst(info, be.Y); !rc {
+									if _, have := wCmd[op]; !have {
+										wCmd[op] = s
+									}
+								}
+							}
+						}
+						return true
+					})
 				}
 			}
 		}
@@ -861,6 +896,23 @@ func runC14(c *Ctx) {
 									}
 									if recTypes[t] {
 										usesLetter = true
+									}
+								}
+							}
+						}
+					case *ast.ReturnStmt:
+						// the record's opcode handed back to the caller that files the edit under it
+						for _, res := range x.Results {
+							if sel, ok := res.(*ast.SelectorExpr); ok {
+								if tv, ok := info.Types[sel.X]; ok {
+									t := tv.Type
+									if pt, ok := t.(*types.Pointer); ok {
+										t = pt.Elem()
+									}
+									if rt, ok := info.Types[res]; ok && recTypes[t] {
+										if nt, ok := rt.Type.(*types.Named); ok && nt.Obj().Name() == "EditOp" {
+											usesOp = true
+										}
 									}
 								}
 							}
